@@ -34,6 +34,8 @@ func init() {
 			{ID: "C07.R13", Text: "the observe callback, exhaustively: the round is always signalled exactly once and first; a closed mitigation or stale generation changes nothing; ambiguous-timeout / temporary-failure / busy change nothing and are survived, any other error stops the client; an outdated record is updated on both fields, then the minimum is taken, then (vbID, min) is dispatched; the branch id for the next observe is refreshed ⇔ the copy reported another one", Run: observeCallbackExact},
 			{ID: "C07.R14", Text: "the plumbing around the callback: Start = first configuration (or die), reconfigure, watch loop calling configWatch; Stop raises unconditionally the flag the loop and callback read; the observe loop starts with a fresh, loaded branch-id map and a ticker; loadVbUUIDMap runs one loader per vBucket and dies on error; loadVbUUID returns the failover-log error or records entry 0; SetAbsent raises what IsAbsent returns; the first configuration's wait error is returned", Run: mitigationLifecycle},
 			{ID: "C07.R15", Text: "reset, for 0..2 replicas × 0..2 vBuckets: replicas+1 records per vBucket, round counter = vBuckets × (replicas+1)", Run: resetCounts},
+			{ID: "C07.R16", Text: "one observe round hands out exactly one completion per (vBucket, copy): Done for an absent copy or a closed/stale round, otherwise one observe of that copy index under the recorded branch id (0..3 copies, exhaustive)", Run: observeRoundAccounting},
+			{ID: "C07.R17", Text: "the observe loop is ended ⇔ it runs: Stop and reconfigure stop the timer, send the close request and await the acknowledgement exactly under observeTimer≠nil; reconfigure dies on an unreadable cluster map; the first configuration is recorded under err==nil", Run: mitigationStopHandshake},
 			{ID: "C07.R6", Text: "close releases without delivering: observer.Close sets closed; listener called ⇔ ¬closed", Run: c07r6},
 		},
 	})
